@@ -58,7 +58,7 @@ Definition address (w : world) (t : table) (a : addr) : addressed :=
           if negb (Nat.eqb (fam k) (fam t)) then AErr ValueError
           else match all_some (map (fun r => pos_of r (ids t)) (ids k)) with
                | Some ps => Pos ps
-               | None => AOut                (* selection holds rows the table lacks *)
+               | None => AErr KeyError       (* selection holds rows the table lacks *)
                end
       end
   end.
